@@ -11,7 +11,7 @@ res = {"id": pid, "which": x, "head": subprocess.run(["git", "-C", "/repo", "rev
 def run(cmd, cwd=wt, timeout=3600):
     t0 = time.time()
     p = subprocess.run(cmd, cwd=cwd, env=env, capture_output=True, text=True, timeout=timeout, shell=isinstance(cmd, str))
-    return p.returncode, (p.stdout + p.stderr)[-3000:], round(time.time() - t0, 1)
+    return p.returncode, (p.stdout + p.stderr)[-200000:], round(time.time() - t0, 1)
 subprocess.run(["git", "-C", "/repo", "worktree", "remove", "--force", wt], capture_output=True)
 shutil.rmtree(wt, ignore_errors=True)
 os.makedirs("/tmp/confirm", exist_ok=True)
@@ -26,14 +26,14 @@ try:
         rc3, o3, _ = run(["git", "apply", "-3", src])
         res["applies_3way"] = rc3 == 0
         if rc3 != 0:
-            res["apply_error"] = o + o3
+            res["apply_error"] = (o + o3)[-2000:]
             raise SystemExit
     else:
         run(["git", "apply", src])
     rc, o, _ = run("go build ./... && go build -tags verif ./...")
     res["builds"] = rc == 0
     if rc != 0:
-        res["build_error"] = o
+        res["build_error"] = o[-2000:]
         raise SystemExit
     _, diff, _ = run(["git", "diff"])
     res["diff_lines"] = len(diff.splitlines())
@@ -61,6 +61,7 @@ try:
         os.remove(dst)
     rc, o, secs = run("go test -vet=off -count=1 -timeout 60m . ./skiplist ./nodetable", timeout=4000)
     res["suite_rc"], res["suite_secs"], res["suite_tail"] = rc, secs, o[-800:]
+    res["suite_pkgs"] = re.findall(r"^(ok|FAIL|---\s+FAIL:?)\s+(\S+)", o, re.M)
     if rc != 0 and "TestInsert" in o and "skiplist" in o:
         rc2, o2, _ = run("go test -vet=off -count=1 ./skiplist")
         res["skiplist_rerun_rc"] = rc2
